@@ -275,39 +275,49 @@ impl<'a> Model for DefModel<'a> {
         // "repeating Finish terminates", from this reachable state, with a tiny and a large buffer
         // one of the three buffer sizes per state, chosen by the path (all three are met many times)
         let pick = path.iter().fold(0usize, |h, a| h.wrapping_mul(31).wrapping_add(a.k as usize ^ a.room as usize ^ a.flush as usize)) % 3;
-        for room in [[if self.input.len() <= 100 { 1usize } else { 5 }, 5, LARGE as usize][pick]] {
-            let mut c = s.c.clone();
-            let mut ip = s.ip;
-            let mut out = s.out.clone();
-            let end = s.declared.unwrap_or(self.input.len());
-            let mut buf = vec![0u8; room];
-            let bound = (self.input.len() * 2 + out.len() + 400) / room.min(64) + 64;
-            let mut calls = 0;
-            let mut code;
-            loop {
-                let r = deflate(&mut c, &self.input[ip..end], &mut buf, MZFlush::Finish);
-                ip += r.bytes_consumed.min(end - ip);
-                out.extend_from_slice(&buf[..r.bytes_written.min(room)]);
-                code = mzres_code(&r.status);
-                calls += 1;
-                if code != 0 || calls > bound {
-                    break;
-                }
-            }
-            self.count("finish_loops");
-            let mut o = Opts::fmt(self.cfg.zlib);
-            o.keep_tokens = false;
-            let ok = code == 1 && {
-                let t = ref_inflate(&out, &o);
-                t.is_complete() && t.consumed == out.len() && t.out == self.input[s.base..end]
-            };
-            if !ok {
-                self.viol("finish-loop", format!("repeating Finish with {}-byte buffers from this state: code {} after {} calls (bound {}), or the result does not decode to the input", room, code, calls, bound), path);
-            }
+        let room = [if self.input.len() <= 100 { 1usize } else { 5 }, 5, LARGE as usize][pick];
+        if let Err(e) = self.finish_loop(s, room) {
+            self.viol("finish-loop", e, path);
         }
     }
 
     fn complete(&self, _s: &mut St, _path: &mut Vec<Act>) {}
+}
+
+impl<'a> DefModel<'a> {
+    /// Repeating Finish with `room`-byte buffers from state `s`: must reach StreamEnd within the call
+    /// bound, and everything delivered must then be one complete stream that decodes to the input.
+    pub fn finish_loop(&self, s: &St, room: usize) -> Result<Vec<u8>, String> {
+        let mut c = s.c.clone();
+        let mut ip = s.ip;
+        let mut out = s.out.clone();
+        let end = s.declared.unwrap_or(self.input.len());
+        let mut buf = vec![0u8; room];
+        let bound = (self.input.len() * 2 + out.len() + 400) / room.min(64) + 64;
+        let mut calls = 0;
+        let mut code;
+        loop {
+            let r = deflate(&mut c, &self.input[ip..end], &mut buf, MZFlush::Finish);
+            ip += r.bytes_consumed.min(end - ip);
+            out.extend_from_slice(&buf[..r.bytes_written.min(room)]);
+            code = mzres_code(&r.status);
+            calls += 1;
+            if code != 0 || calls > bound {
+                break;
+            }
+        }
+        self.count("finish_loops");
+        let mut o = Opts::fmt(self.cfg.zlib);
+        o.keep_tokens = false;
+        let ok = code == 1 && {
+            let t = ref_inflate(&out, &o);
+            t.is_complete() && t.consumed == out.len() && t.out == self.input[s.base..end]
+        };
+        if !ok {
+            return Err(format!("repeating Finish with {}-byte buffers from this state: code {} after {} calls (bound {}), or the result does not decode to the input", room, code, calls, bound));
+        }
+        Ok(out)
+    }
 }
 
 pub fn inputs() -> Vec<(String, Vec<u8>)> {
@@ -391,6 +401,57 @@ pub fn run(tier: &str) -> i32 {
             *acc.1.entry(k).or_insert(0) += v;
         }
     });
+    // ---- block-fit capacities: the Finish loop with buffers whose size is the exact byte position at
+    // which the compressor's own first / second block ends in the output (-3..=+3): a block handed
+    // over while the caller's buffer is full to the byte
+    let mut fit_inputs: Vec<corpus::Input> = vec![long.clone(), corpus::shape_named("long:R40000", &[(crate::gen::Seg::R, 40000)]), corpus::shape_named("long:H70000", &[(crate::gen::Seg::H, 70000)])];
+    fit_inputs.extend(edge.iter().cloned());
+    let mut fit_items: Vec<(usize, usize)> = vec![];
+    for i in 0..fit_inputs.len() {
+        for c in 0..cf.len() {
+            fit_items.push((i, c));
+        }
+    }
+    let fit = par_for(fit_items.len(), || 0u64, |ix, acc| {
+        let (i, c) = fit_items[ix];
+        watchdog::tick(5_000_000 + ix as u64, 0);
+        let inp = &fit_inputs[i];
+        let m = DefModel { input: &inp.data, name: inp.name.as_str(), cfg: cf[c], rep: &rep, cov: Mutex::new(BTreeMap::new()), check_side_effects: false };
+        let s0 = m.init();
+        let pilot = match guarded(|| m.finish_loop(&s0, LARGE as usize)) {
+            Ok(Ok(o)) => o,
+            Ok(Err(e)) => {
+                m.viol("finish-loop", e, &[]);
+                return;
+            }
+            Err(p) => {
+                m.viol("panic", format!("panic {}", p), &[]);
+                return;
+            }
+        };
+        let mut o = Opts::fmt(cf[c].zlib);
+        o.keep_tokens = false;
+        let t = ref_inflate(&pilot, &o);
+        let mut caps: Vec<usize> = vec![];
+        for b in t.blocks.iter().filter(|b| !b.bfinal).take(2) {
+            for d in -3i64..=3 {
+                let v = (b.end_bit / 8) as i64 + d;
+                if v > 0 {
+                    caps.push(v as usize);
+                }
+            }
+        }
+        caps.dedup();
+        for cap in caps {
+            *acc += 1;
+            match guarded(|| m.finish_loop(&s0, cap)) {
+                Ok(Ok(_)) => {}
+                Ok(Err(e)) => rep.violation("C14/finish-loop/block-fit", format!("{} :: {} on {}", e, cf[c].name(), inp.name), json!({"block_fit": true, "input": inp.name, "cfg": c, "cap": cap})),
+                Err(p) => rep.violation("C14/panic", format!("panic {} :: block-fit capacity {} {} on {}", p, cap, cf[c].name(), inp.name), json!({"block_fit": true, "input": inp.name, "cfg": c, "cap": cap})),
+            }
+        }
+    });
+    rep.set("block_fit_finish_loops", json!(fit.iter().sum::<u64>()));
     let mut total = Stats::default();
     let mut cov: BTreeMap<&'static str, u64> = BTreeMap::new();
     for (s, c) in res {
@@ -418,6 +479,21 @@ pub fn run(tier: &str) -> i32 {
 }
 
 pub fn replay(v: &Value) -> Option<String> {
+    if v.get("block_fit").is_some() {
+        let name = v["input"].as_str()?;
+        let n: usize = name[6..].parse().ok()?;
+        let seg = match &name[5..6] { "T" => crate::gen::Seg::T, "H" => crate::gen::Seg::H, _ => crate::gen::Seg::R };
+        let inp = corpus::shape_named(name, &[(seg, n)]);
+        let cf = cfgs();
+        let rep = Report::new("C14", "quick", "model_checking");
+        let m = DefModel { input: &inp.data, name, cfg: cf[v["cfg"].as_u64()? as usize], rep: &rep, cov: Mutex::new(BTreeMap::new()), check_side_effects: false };
+        let cap = v["cap"].as_u64()? as usize;
+        return match guarded(|| m.finish_loop(&m.init(), cap)) {
+            Ok(Ok(_)) => None,
+            Ok(Err(e)) => Some(e),
+            Err(p) => Some(format!("panic {}", p)),
+        };
+    }
     let input = unhex(v["input_hex"].as_str()?);
     let cfg = Cfg::from_json(&v["cfg"]);
     let rep = Report::new("C14", "quick", "model_checking");
